@@ -356,3 +356,198 @@ Example C14_example_append :
   option_map lazy_ttl_ms (tfwd_hops [(1000000000, [([97],[98])]); (50000000, [([99],[100])]); (0, [])] p) = Some 50 /\
   run_ttl_relay_app ([50000000; 1; 1; 97; 2; 98; 99] ++ put_bytes p) = [50000000; 0; 50].
 Proof. vm_compute. repeat split. Qed.
+
+(* ---- the deadline of ONE ATTEMPT of a retried call (thrift / json clients) ------------------ *)
+(* Vocabulary.  Channel.RunWithRetry calls its attempt function once per attempt with the
+   context of that attempt: [attempt_ctx overall start tpa] (Model/AttemptCtx.v) = the caller's
+   context when RetryOptions.TimeoutPerAttempt is 0, else context.WithTimeout(caller's, tpa)
+   created at [start].  [attempt_remaining overall_dl start tpa now] is the time the attempt has
+   left at [now] -- the "caller's remaining time" of clause (a) for this call.
+   [ctxflow_sites] (Gen/GenCtxFlow.v, regenerated from the source of EVERY package of the module on
+   each run) lists every hand-over of a context below RunWithRetry: in RunWithRetry itself, in each
+   attempt function passed to it ([retry_attempt_fns]) and in the functions those call
+   (startCall -> BeginCall), with its origin (0 own parameter, 1 derived from it, 2 the ENCLOSING
+   function's context captured by the attempt function, 3 anything else).
+   [gen_client_src pkg] folds the origins of package pkg into the source of the context its
+   BeginCall receives; [client_begin src ..] is beginCall with that context. *)
+From Verif Require Import Gen.GenCtxFlow Spec.CtxFlowSpec Model.AttemptCtx Model.ConnFail
+  Proofs.AttemptCtxP Proofs.ConnFailP.
+
+(* The tie.  RunWithRetry hands its function runCtx / WithTimeout(runCtx, TimeoutPerAttempt);
+   inside the core package the context given to BeginCall goes down to the message exchange of the
+   call; every hand-over on the way passes on the function's own context parameter (or one derived
+   from it); every attempt function does hand a context on and reaches a BeginCall; the thrift and
+   json clients are among them. *)
+Theorem C14_attempt_ctx_generated :
+  rows_of_fn pkg_root fn_run_with_retry ctxflow_sites = core_ctx_rows /\
+  forallb (path_step_present ctxflow_sites) core_call_path = true /\
+  forallb row_forwards ctxflow_sites = true /\
+  forallb (attempt_fn_covered ctxflow_sites) retry_attempt_fns = true /\
+  forallb (fun pf => reaches_begin (fst pf) ctxflow_sites) retry_attempt_fns = true /\
+  forallb (fun k => existsb (fun pf => lz_eqb (fst pf) (fst k) && lz_eqb (snd pf) (snd k)) retry_attempt_fns) known_attempt_fns = true /\
+  forallb (fun p => existsb (fun pf => lz_eqb (fst pf) p) retry_attempt_fns) (client_pkgs ctxflow_sites) = true.
+Proof. exact (conj core_rows_generated (conj core_path_generated (conj ctx_discipline_generated ctx_coverage_generated))). Qed.
+Print Assumptions C14_attempt_ctx_generated.
+
+(* (a) for an attempt, every package: the field is a uint32 and field x 1ms never exceeds the
+   time the ATTEMPT has left (hence neither the overall remaining time nor, with a per-attempt
+   timeout, start + TimeoutPerAttempt - now); below 2^32 ms it is that time in whole ms, >= 1 *)
+Theorem C14_attempt_wire_ttl : forall pkg odl start tpa now cerr ttl,
+  client_begin (gen_client_src pkg) (Some odl) start tpa now cerr = BcOk ttl ->
+  is_u32 (wire_ttl_ms ttl) /\
+  wire_ttl_ms ttl * ms_ns <= attempt_remaining odl start tpa now /\
+  wire_ttl_ms ttl * ms_ns <= odl - now /\
+  (tpa <> 0 -> wire_ttl_ms ttl * ms_ns <= start + tpa - now) /\
+  (attempt_remaining odl start tpa now < 2 ^ 32 * ms_ns ->
+     1 <= wire_ttl_ms ttl /\ wire_ttl_ms ttl = attempt_remaining odl start tpa now / ms_ns).
+Proof. exact attempt_wire_ttl. Qed.
+Print Assumptions C14_attempt_wire_ttl.
+
+(* an attempt with under a millisecond left fails locally with ErrTimeout *)
+Theorem C14_attempt_sub_millisecond : forall pkg odl start tpa now cerr,
+  attempt_remaining odl start tpa now < ms_ns ->
+  client_begin (gen_client_src pkg) (Some odl) start tpa now cerr = BcErr c_ErrCodeTimeout.
+Proof. exact attempt_sub_ms. Qed.
+Print Assumptions C14_attempt_sub_millisecond.
+
+(* (d) the context of the attempt's message exchange -- every wait of the caller ends with it --
+   expires at the overall deadline or TimeoutPerAttempt after the attempt's start, whichever is
+   earlier *)
+Theorem C14_attempt_wait_deadline : forall pkg odl start tpa,
+  client_ctx (gen_client_src pkg) (Some odl) start tpa = Some (if tpa =? 0 then odl else Z.min odl (start + tpa)).
+Proof. exact attempt_wait_deadline. Qed.
+Print Assumptions C14_attempt_wait_deadline.
+
+(* (a)-(c) end to end for an attempt: through any chain of relays the field that arrives and the
+   handler's deadline are bounded by the attempt's remaining time and by every relay maximum *)
+Theorem C14_attempt_end_to_end : forall pkg odl start tpa now maxes base arrival f,
+  Forall is_duration maxes ->
+  attempt_field (gen_client_src pkg) odl start tpa now maxes = Some f ->
+  is_u32 f /\ f * ms_ns <= attempt_remaining odl start tpa now /\
+  Forall (fun cfg => f * ms_ns <= relay_max cfg) maxes /\
+  exists d, incoming_ctx base arrival (recv_ttl_ns f) = Some d /\
+            d <= arrival + f * ms_ns /\ d <= arrival + attempt_remaining odl start tpa now.
+Proof. exact attempt_end_to_end. Qed.
+Print Assumptions C14_attempt_end_to_end.
+
+(* why the tie is needed: handing on the ENCLOSING function's context (origin 2) sends the whole
+   remaining time of the call although the attempt has far less *)
+Theorem C14_attempt_needs_own_context :
+  exists odl start tpa now ttl,
+    client_begin SrcOverall (Some odl) start tpa now 0 = BcOk ttl /\
+    attempt_remaining odl start tpa now < wire_ttl_ms ttl * ms_ns.
+Proof. exact overall_ctx_exceeds_attempt. Qed.
+Print Assumptions C14_attempt_needs_own_context.
+
+(* the reference the engine attemptttl judges against (sub ttl_attempt): an attempt that starts at
+   or after start_lb delivers at most attempt_bound .. start_lb *)
+Theorem C14_attempt_bound : forall pkg odl tpa maxes start_lb start now f,
+  Forall is_duration maxes ->
+  0 <= tpa -> start_lb <= start <= now ->
+  odl - start_lb < 2 ^ 32 * ms_ns -> tpa < 2 ^ 32 * ms_ns ->
+  attempt_field (gen_client_src pkg) odl start tpa now maxes = Some f ->
+  1 <= f \/ f = 0 -> f <= attempt_bound odl tpa maxes start_lb.
+Proof. exact attempt_bound_sound. Qed.
+Print Assumptions C14_attempt_bound.
+
+(* ---- (d) "its connection fails": every kind of connection failure ---------------------------- *)
+(* Vocabulary (Model/ConnFail.v).  One connection with any number of inbound exchanges (handlers)
+   and outbound exchanges (calls made over it); [run ce pe ls] executes a schedule of call reqs
+   arriving (an id that is still active = protocolError), outbound calls beginning,
+   connectionError (FConnErr: read / write error, EOF, protocol error frame from the peer,
+   unparsable error frame, ...), protocolError (FProtoErr), watcher goroutines (FWatch), handler
+   deadlines / completions and caller waits.  [ce] / [pe] are the stop programs of the two
+   functions: which exchange sets they stop, under the shared once-only CAS or not; [prog_ok] =
+   the program stops BOTH sets.  [settle] lets every watcher and every blocked caller run. *)
+
+(* The tie.  The stopExchanges statements of connection.go are the programs of the model (both
+   functions: outbound and inbound, under c.stoppedExchanges.CAS(false, true); no other caller);
+   messageExchangeSet.stopExchanges and the watcher goroutine of dispatchInbound are statement by
+   statement what the model's stop_set / FWatch were written against. *)
+Theorem C14_connfail_generated :
+  (prog_of fn_connection_error stop_sites = map Some ce_prog /\
+   prog_of fn_protocol_error stop_sites = map Some pe_prog /\
+   forallb (fun r => lz_eqb (row_fn r) fn_connection_error || lz_eqb (row_fn r) fn_protocol_error) stop_sites = true) /\
+  notify_sites = model_notify_sites /\ watch_sites = model_watch_sites /\
+  prog_ok ce_prog /\ prog_ok pe_prog.
+Proof. exact (conj stop_programs_generated (conj notify_statements_generated (conj watcher_statements_generated (conj ce_prog_ok pe_prog_ok)))). Qed.
+Print Assumptions C14_connfail_generated.
+
+(* which steps are failures, whatever happened before *)
+Theorem C14_connfail_events : forall ce pe, prog_ok ce -> prog_ok pe -> forall ls l,
+  let s := run ce pe ls in
+  l = FConnErr \/ l = FProtoErr \/ (exists id e, l = FCallReq id /\ active s = true /\ find id (inb s) = Some e) ->
+  failed (run ce pe (ls ++ [l])) = true.
+Proof. exact failure_events. Qed.
+Print Assumptions C14_connfail_events.
+
+(* after any failure, in every schedule: the connection is no longer active, both exchange sets
+   are shut down, every registered exchange -- every handler still running, every call still
+   waiting -- has been notified *)
+Theorem C14_connfail_notifies_all : forall ce pe, prog_ok ce -> prog_ok pe -> forall ls,
+  let s := run ce pe ls in
+  failed s = true ->
+  active s = false /\ in_shut s = true /\ out_shut s = true /\
+  notified_all (inb s) /\ notified_all (outb s).
+Proof. exact failure_notifies_all. Qed.
+Print Assumptions C14_connfail_notifies_all.
+
+(* ... so the goroutine watching a registered handler cancels its context: the exchange leaves
+   the map with the context Canceled (DeadlineExceeded if the deadline had passed before) *)
+Theorem C14_connfail_cancels_handler : forall ce pe, prog_ok ce -> prog_ok pe -> forall ls id e,
+  let s := run ce pe ls in
+  failed s = true -> find id (inb s) = Some e ->
+  let s' := step ce pe s (FWatch id) in
+  inb s' = remove id (inb s) /\
+  lookup_last id (gone s') None = Some (if x_ctx e =? 0 then 2 else x_ctx e).
+Proof. exact failure_cancels_handler. Qed.
+Print Assumptions C14_connfail_cancels_handler.
+
+(* once everything that is ready has run: no exchange is left, no handler context is live *)
+Theorem C14_connfail_settles : forall ce pe, prog_ok ce -> prog_ok pe -> forall ls,
+  let s := run ce pe ls in
+  failed s = true ->
+  inb (settle ce pe s) = [] /\ outb (settle ce pe s) = [] /\
+  forall id, hctx_of (settle ce pe s) id <> Some 0.
+Proof. exact failure_settles. Qed.
+Print Assumptions C14_connfail_settles.
+
+(* exactly once: each set is stopped at most once, exactly once after a failure; no exchange is
+   notified twice *)
+Theorem C14_connfail_exactly_once : forall ce pe, prog_ok ce -> prog_ok pe -> forall ls,
+  let s := run ce pe ls in
+  0 <= in_stops s <= 1 /\ 0 <= out_stops s <= 1 /\
+  (failed s = true -> in_stops s = 1 /\ out_stops s = 1) /\
+  Forall (fun e => 0 <= x_notifies e <= 1) (inb s ++ outb s).
+Proof. exact stops_exactly_once. Qed.
+Print Assumptions C14_connfail_exactly_once.
+
+(* necessity of [prog_ok]: a protocolError that stops only the outbound set consumes the shared
+   flag, the connectionError that follows (the peer closes the socket) stops nothing, and the
+   handlers' contexts stay live for good *)
+Theorem C14_connfail_needs_inbound_stop :
+  let ls := [FCallReq 1; FCallReq 2; FCallReq 1; FConnErr] in
+  let s := settle ce_prog pe_outbound_only (run ce_prog pe_outbound_only ls) in
+  failed s = true /\ hctx_of s 1 = Some 0 /\ hctx_of s 2 = Some 0.
+Proof. exact inbound_stop_needed. Qed.
+Print Assumptions C14_connfail_needs_inbound_stop.
+
+Example C14_example_attempt :
+  (* overall 3 s, TimeoutPerAttempt 200 ms: the attempt that starts at 0 sends 200, the one that
+     starts at 2.9 s sends 100; through a relay with a 50 ms maximum 50; without a per-attempt
+     timeout 3000 *)
+  run_ttl_attempt [3000000000; 200000000; 0; 2; 0; 2900000000] = [200; 100] /\
+  run_ttl_attempt [3000000000; 200000000; 1; 50000000; 1; 0] = [50] /\
+  run_ttl_attempt [3000000000; 0; 0; 1; 0] = [3000] /\
+  gen_client_src pkg_thrift = SrcAttempt /\ gen_client_src pkg_json = SrcAttempt.
+Proof. vm_compute. repeat split. Qed.
+
+Example C14_example_connfail :
+  (* two handlers running, a call req re-using id 1 (protocolError), then the peer closes the
+     socket (connectionError): both contexts end Canceled; an outbound call waiting on the
+     connection ends with the error *)
+  let ls := [FCallReq 1; FCallReq 2; FOutCall 7; FCallReq 1; FConnErr] in
+  let s := settle ce_prog pe_prog (run ce_prog pe_prog ls) in
+  failed s = true /\ hctx_of s 1 = Some 2 /\ hctx_of s 2 = Some 2 /\ out_res s = [(7, 1)] /\
+  run_connfail [0; 0; 4; 0; 1; 0; 2; 0; 1; 2] = [2; 1; 2; 2; 2; 0; 0].
+Proof. vm_compute. repeat split. Qed.
